@@ -29,6 +29,7 @@ pub const THEMES: [Theme; 11] = [
 ];
 
 /// themes whose names never differ only by namespace prefix and never carry a prefix (C01/C09/C13 scope by construction)
+#[allow(dead_code)]
 pub const NS_FREE_THEMES: [Theme; 9] = [
     Theme::Plain, Theme::Keywords, Theme::CaseVariants, Theme::Separators, Theme::Concat, Theme::Prelude, Theme::SuffixTraps, Theme::NonAscii, Theme::Recurring,
 ];
@@ -92,11 +93,13 @@ pub struct GenCfg {
     pub adjacent_repeats: bool, // repeated children adjacent (serde-xml-rs)
     pub misc: bool,          // comments / PIs / prolog
     pub late_bias: bool,     // later occurrences introduce several new attributes/children at once
+    pub disjoint_attrs_kids: bool, // attribute names of an element differ from its child names (serde-xml-rs)
+    pub split_text: bool,    // a comment may split the character data of an element in two text nodes
 }
 
 impl GenCfg {
     pub fn quick() -> Self {
-        GenCfg { max_depth: 4, max_fanout: 5, max_attrs: 4, max_docs: 4, data_oriented: false, adjacent_repeats: false, misc: true, late_bias: false }
+        GenCfg { max_depth: 4, max_fanout: 5, max_attrs: 4, max_docs: 4, data_oriented: false, adjacent_repeats: false, misc: true, late_bias: false, disjoint_attrs_kids: false, split_text: true }
     }
 }
 
@@ -113,7 +116,8 @@ pub fn gen_shape(rng: &mut Rng, pool: &[String], name: &str, depth: usize, cfg: 
     let nattrs = rng.below(cfg.max_attrs + 1);
     let attrs = distinct_sample(rng, pool, nattrs);
     let nkids = if depth >= cfg.max_depth { 0 } else { rng.below(cfg.max_fanout + 1) };
-    let kid_names = distinct_sample(rng, pool, nkids);
+    let kid_pool: Vec<String> = if cfg.disjoint_attrs_kids { pool.iter().filter(|n| !attrs.contains(n)).cloned().collect() } else { pool.to_vec() };
+    let kid_names = distinct_sample(rng, &kid_pool, nkids);
     let kids = kid_names.iter().map(|k| gen_shape(rng, pool, k, depth + 1, cfg)).collect();
     Shape { name: name.to_string(), attrs, kids, text_weight: rng.below(4) }
 }
@@ -199,7 +203,7 @@ pub fn gen_node(rng: &mut Rng, shape: &Shape, cfg: &GenCfg, stage: usize) -> Nod
             0 => items.push(Item::CData(rng.pick(&["cdata", "", "<x>", " "]).to_string())),
             1 => {
                 items.push(Item::Text(rng.pick(&TEXTS).to_string()));
-                if cfg.misc {
+                if cfg.misc && cfg.split_text {
                     items.push(Item::Comment("c".into()));
                     items.push(Item::Text("more".into()));
                 }
@@ -402,4 +406,26 @@ pub fn structured_fault(rng: &mut Rng, valid: &str) -> Vec<u8> {
         _ => b = b"<?xml version=\"1.0\"?><!DOCTYPE x><!-- only misc -->".to_vec(),
     }
     b
+}
+
+/// make every attribute value and every character-data string of the document unique (C02/C13: exact attribution of lost values)
+pub fn uniquify(n: &mut Node, counter: &mut usize) {
+    for a in n.attrs.iter_mut() {
+        *counter += 1;
+        a.1 = format!("{}#{}", a.1, counter);
+    }
+    for it in n.items.iter_mut() {
+        match it {
+            Item::Elem(c) => uniquify(c, counter),
+            Item::Text(t) => {
+                *counter += 1;
+                *t = format!("{}#{}", t.trim_end(), counter) + if t.ends_with(' ') { " " } else { "" };
+            }
+            Item::CData(t) => {
+                *counter += 1;
+                *t = format!("{}#{}", t, counter);
+            }
+            _ => {}
+        }
+    }
 }
